@@ -97,6 +97,17 @@ def cases_all(tier):
   return st.builds(lambda spec, ops: {"spec": spec, "ops": ops}, gen_model.docspecs(PROF_ALL), ops_strategy(8 if tier == "quick" else 20))
 
 
+def cases_ruby_split(tier):
+  """documents whose ruby parts are sent to different regions and timed (C01's split_ruby): the per-region copies of the accelerated
+  path hold a ruby that has lost a part; histories of snapshots only"""
+  from vt.props import c01
+  pick = st.tuples(st.sampled_from([True, True, True, False]), st.sampled_from([gen_model.F(1), gen_model.F(3), gen_model.F(7)]),
+                   st.sampled_from([True, True, True, False]))
+  snaps = st.lists(st.tuples(st.just("snap"), st.integers(0, 60), st.booleans(), st.just(True)), min_size=4, max_size=10)
+  return st.builds(lambda spec, picks, ops: {"spec": c01.split_ruby(spec, picks), "ops": ops}, gen_model.docspecs(c01.RUBY_TIMED),
+                   st.lists(pick, min_size=3, max_size=4), snaps)
+
+
 def cases(tier):
   choice = st.tuples(st.one_of(st.none(), st.integers(0, len(HIDE_REVEAL) - 1)), st.sampled_from(gen_model.TIMES),
                      st.one_of(st.none(), st.sampled_from(gen_model.TIMES)))
@@ -235,4 +246,5 @@ PARTS = {
   "main": Part("main", check, strategy=cases, n=(960, 64000), shrinker=SHRINK,
                required_labels=("regions:0", "regions:1", "regions:2", "empty-painting-region-at-probe", "region-background-animated")),
   "all_props": Part("all_props", check, strategy=cases_all, n=(640, 32000), shrinker=SHRINK),
+  "ruby_split": Part("ruby_split", check, strategy=cases_ruby_split, n=(320, 16000), shrinker=SHRINK),
 }
